@@ -479,12 +479,7 @@ def oracle(case, impl):
 
 # ---------------------------------------------------------------------------------------------- running
 def build_harness(ck):
-    src = os.path.join(REPO, 'src', 'solver.cc')
-    txt = open(src).read()
-    if 'mp_verif_point' not in txt or 'AMPL_MP_VERIF' not in txt:
-        raise RuntimeError('C15 needs the guarded verification hook in %s (mp_verif_point / MP_VERIF_POINT under '
-                           '#ifdef AMPL_MP_VERIF): apply repo_patches/C15-hook.diff. Without it no signal can be '
-                           'delivered between the individual stores; this is a set-up error, not a property verdict.' % src)
+    check_hook_present()
     objs = ck.libmp_objects(flags=SAN)
     h = ck.objects([os.path.join(VERIF, 'harness', 'h_signal.cc')], flags=SAN, tag='c15h')
     return ck.link('h_signal', h + objs, flags=['-fsanitize=address,undefined'])
@@ -780,14 +775,40 @@ def coverage_report(res, label):
     return '\n'.join(out), mt
 
 
-N_THEOREMS = 28
+N_THEOREMS = 36
 CURRENT_LAYOUT = 'fixed'     # = Layout.current in lean/MpVerif/C15/Model.lean (the order the main theorems are stated for)
 
 
+def check_hook_present():
+    src = os.path.join(REPO, 'src', 'solver.cc')
+    txt = open(src).read()
+    if 'mp_verif_point' not in txt or 'AMPL_MP_VERIF' not in txt:
+        raise RuntimeError('C15 needs the guarded verification hook in %s (mp_verif_point / MP_VERIF_POINT under '
+                           '#ifdef AMPL_MP_VERIF): apply repo_patches/C15-hook.diff. Without it no signal can be '
+                           'delivered between the individual stores; this is a set-up error, not a property verdict.' % src)
+
+
 def run(ck):
-    proof_ok, failing = ck.proof_stage('MpVerif.C15.Props', 'MpVerif/C15/Props.lean', 'C15_',
-                                        ['MpVerif/C15/*.lean'], expect_min=N_THEOREMS)
-    ck.log('proof stage: ok=%s failing=%s' % (proof_ok, failing[:8]))
+    check_hook_present()
+    # 1. regenerate lean/MpVerif/Gen/Signal.lean from the current source (clang AST; written only if changed)
+    gen = os.path.join(LEAN, 'MpVerif', 'Gen', 'Signal.lean')
+    rc, out, err = sh([sys.executable, os.path.join(VERIF, 'translators', 'gen_signal.py'), REPO, gen,
+                       os.path.join(BUILD, 'tr')], timeout=600)
+    ck.log((out.strip() or err.strip())[:400])
+    translator_ok = rc == 0
+    ck.cov['translator'] = {'ok': translator_ok, 'generated': 'lean/MpVerif/Gen/Signal.lean',
+                            'functions': ['SignalHandler::SignalHandler', 'SignalHandler::~SignalHandler', 'SignalHandler::SetHandler',
+                                          'SignalHandler::HandleSigInt', 'SignalHandler::Stop', 'BasicSolver::Stop',
+                                          'BasicSolver::SetHandler', 'BasicSolver::set_interrupter']}
+    if translator_ok:
+        proof_ok, failing = ck.proof_stage('MpVerif.C15.Props', 'MpVerif/C15/Props.lean', 'C15_',
+                                            ['MpVerif/C15/*.lean', 'MpVerif/Gen/Signal.lean'], expect_min=N_THEOREMS)
+    else:
+        # a statement of the anchored functions is not one of the shapes the model knows: the C15_gen_* obligations
+        # cannot even be stated for this source
+        proof_ok, failing = False, ['translator: ' + (out + err).strip()[-500:]]
+        ck.cov.update({'obligations': N_THEOREMS, 'discharged': 0, 'checker_cmd': 'translators/gen_signal.py failed'})
+    ck.log('proof stage: ok=%s failing=%s' % (proof_ok, [f[:160] for f in failing[:8]]))
     if ck.tier == 'thorough' and proof_ok:
         badm = ck.leanchecker(['MpVerif.C15.Props'])
         if badm:
@@ -1004,7 +1025,9 @@ def run(ck):
                          {'case': case, 'real_code_output': il, 'violated': what, 'signature': sig,
                           'more_cases': [c for c, _, _ in lst[1:6]],
                           'how': 'echo "%s" | build/bin/h_signal-*   (or ./check C15 --replay <this file>)' % case},
-                         found_input=True)
+                         # shape:* = the real code's steps are not the ones the model knows (a correspondence break,
+                         # not by itself a violated clause of the property)
+                         found_input=not sig.startswith('shape:'))
     ck.cov['correspondence']['first_disagreements'] = [{'case': c, 'real_code': i, 'model': m} for c, i, m, _ in corr_bad[:3]]
     if corr_bad and not ck.violations:
         corr_bad.sort(key=lambda x: (len(x[0]), x[0]))
@@ -1025,10 +1048,19 @@ def run(ck):
                          {'observed_step_names': names, 'layout_observed': layout, 'layout_of_main_theorems': CURRENT_LAYOUT,
                           'theorem': 'C15_no_lost / C15_pairing (hypothesis Layout.current)'}, found_input=False)
     if not proof_ok:
-        for fdecl in failing:
-            ck.add_violation('obligation:%s' % fdecl, 'proof obligation no longer checks: %s' % fdecl,
-                             {'theorem': fdecl, 'module': 'MpVerif.C15.Props',
-                              'searched': '%d schedules on the real code' % len(lines)}, found_input=False)
+        ck.cov['obligations_failed'] = [f[:300] for f in failing]
+        if any(v['found_input'] for v in ck.violations):
+            # the search found schedules on which the real code violates the property: those are the verdict; the broken
+            # obligations are recorded in the evidence and named in each replay file
+            for v in ck.violations:
+                if isinstance(v.get('replay'), dict):
+                    v['replay']['proof_obligations_that_no_longer_check'] = [f[:300] for f in failing]
+        else:
+            for fdecl in failing:
+                sig = 'obligation:%s' % (fdecl.split(':')[0] if fdecl.startswith('translator') else fdecl)
+                ck.add_violation(sig, 'proof obligation no longer checks: %s' % fdecl,
+                                 {'theorem': fdecl, 'module': 'MpVerif.C15.Props',
+                                  'searched': '%d schedules on the real code, none violates the property' % len(lines)}, found_input=False)
     ck.assumptions += [
         'signals are delivered on the interrupted thread and HandleSigInt is not re-entered while it runs (nested delivery is not modelled)',
         'a store to std::atomic<T> / volatile sig_atomic_t is one indivisible program step; delivery inside a store or inside write(2) is not modelled',
@@ -1038,7 +1070,8 @@ def run(ck):
         'Windows signal repeater thread (SW_sigpipe) out of scope',
     ]
     ck.cov['trusted_base'] += [
-        'hand-written Lean model MpVerif/C15/Model.lean (compared with the real code after every store and every delivery on every run)',
+        'hand-written Lean model MpVerif/C15/Model.lean: its step lists, deliver and stopQuery are PROVED equal to the meaning of the statement lists regenerated from the clang AST on every run (C15_gen_*); still hand-written and only sampled: the state type, the meaning given to each statement (SrcLang.lean), the environment (signal(2) semantics, object lifetime, interrupter pointer)',
+        'translators/gen_signal.py + clang-14 AST: statement shapes are matched exactly, anything else is a loud failure',
         'guarded hook mp_verif_point in src/solver.cc (call-outs only; names are cross-checked against the model step order)',
         'harness reads SignalHandler private statics through explicit-instantiation access (no change to the class) and interposes ::signal',
     ]
